@@ -78,8 +78,11 @@ def duration_conservation(prog, rep, ol):
     groups = norm(i.test.comparators[0])
     ck = norm(i.test.left)
     new, old = (i.body, i.orelse) if isinstance(i.test.ops[0], ast.NotIn) else (i.orelse, i.body)
-    creates = [n for n in new if isinstance(n, ast.Assign) and norm(n.targets[0]) == f"{groups}[{ck}]" and isinstance(n.value, ast.Call) and norm(n.value.func) == "Event"]
-    okc = len(creates) == 1 and any(k.arg == "duration" and norm(k.value) == f"{ev}.duration" for k in creates[0].value.keywords)
+    from ..trace import resolve
+
+    stores = [n for n in new if isinstance(n, ast.Assign) and norm(n.targets[0]) == f"{groups}[{ck}]"]
+    cval = resolve(stores[0].value, fi) if len(stores) == 1 else None
+    okc = isinstance(cval, ast.Call) and norm(cval.func) == "Event" and any(k.arg == "duration" and norm(k.value) == f"{ev}.duration" for k in cval.keywords)
     rep.check(okc, "SUM", fi.short, "group creation", f"Event(duration={ev}.duration)", "a new group does not start with its first event's duration", fi.loc(i))
     adds = [norm(n) for n in old]
     oka = adds == [f"{groups}[{ck}].duration += {ev}.duration"]
@@ -96,6 +99,8 @@ def duration_conservation(prog, rep, ol):
         body = [norm(s) for s in loops[0].body]
         oko = len(body) == 1 and body[0].startswith(f"{norm(rets[0].value)}.append(") and not any(isinstance(x, ast.If) for x in ast.walk(loops[0]))
     elif len(rets) == 1 and norm(rets[0].value) in (f"list({groups}.values())",):
+        oko = True
+    elif len(rets) == 1 and isinstance(rets[0].value, ast.ListComp) and len(rets[0].value.generators) == 1 and not rets[0].value.generators[0].ifs and norm(rets[0].value.generators[0].iter) in (f"{groups}.values()", groups, f"{groups}.items()"):
         oko = True
     rep.check(oko, "SUM", fi.short, "outputs", "one output event per group", "the result is not one event per group", fi.loc())
 
@@ -152,7 +157,13 @@ def small_functions(prog, rep):
     ok = len(rets) == 1 and norm(rets[0].value) == f"{fi.params[0]}[:{fi.params[1]}]"
     rep.check(ok, "SHAPE", fi.short, "prefix", "events[:count]", f"`{norm(rets[0].value) if rets else ''}` is not the prefix of length count", fi.loc())
     fi = prog.func("sum_durations")
-    t = norm(fi.node.body[-1])
+    from ..trace import resolve as _rs
+
+    last = fi.node.body[-1]
+    if isinstance(last, ast.Return) and isinstance(last.value, ast.Call):
+        for k in last.value.keywords:
+            k.value = _rs(k.value, fi)
+    t = norm(last)
     ok = t in (f"return timedelta(seconds=sum((event.duration.total_seconds() for event in {fi.params[0]})))", f"return timedelta(seconds=sum(event.duration.total_seconds() for event in {fi.params[0]}))", f"return timedelta(seconds=sum([event.duration.total_seconds() for event in {fi.params[0]}]))")
     rep.check(ok, "SHAPE", fi.short, "sum", "timedelta(seconds=sum(e.duration.total_seconds() for e in events))", f"`{t}` does not sum every event's duration", fi.loc())
     fi = prog.func("filter_keyvals")
